@@ -219,6 +219,14 @@ func TestVerifC13MergeChart(t *testing.T) {
 					}
 				}
 				xs = append(xs, r.X)
+				if rapid.IntRange(0, 11).Draw(t, "interruptedUploadFirst") == 0 {
+					// an earlier attempt to store this report was interrupted (its writer was never closed);
+					// the complete upload that follows is the one stored report
+					if w0, err := env.api.Upload.Object(fmt.Sprintf("%s/%g.json", day, r.X)).NewWriter(ctx); err == nil {
+						w0.Write([]byte(`{"Week":"`))
+					}
+					vstats.Label("interruptedUpload")
+				}
 				w, err := env.api.Upload.Object(fmt.Sprintf("%s/%g.json", day, r.X)).NewWriter(ctx)
 				if err != nil {
 					t.Fatal(err)
